@@ -532,6 +532,30 @@ def ver_matrix(ctx, good_srv):
         out.append((rt.mk_ietf(nonce, 1024, srv=(good_srv * 2)[:L]), False))
     out.append((rt.mk_ietf(nonce, 1024, srv=hashlib.sha512(b"\xff" + bytes(32)).digest()[:32]), False))
     out.append((rt.mk_ietf(nonce, 1024, srv=good_srv), True))
+    # the size gate on the framed path: the DATAGRAM (12-byte frame header included) must be 1024..1500 bytes
+    for msg_size, want in ((1008, False), (1012, True), (1016, True), (1020, True), (1024, True), (1488, True), (1492, False)):
+        for srv in (None, good_srv):
+            out.append((rt.mk_ietf(nonce, msg_size, srv=srv), want))
+    # tags the server does not know: such a message is malformed whatever else it holds, and what an
+    # unknown tag carries must never be read as the value of a known one
+    wire = dict(rt.tag_table())
+    unknown = {"U_AAA": b"AAA\x00", "U_SRA": b"SRA\x00", "U_VEQ": b"VEQ\x00", "U_HIGH": b"\xff\xff\xff\xff"}
+    wire.update(unknown)
+    def num(t):
+        return struct.unpack("<I", wire[t])[0]
+    def build(fields):
+        fields = sorted(fields, key=lambda f: num(f[0]))
+        base = len(rt.encode(fields + [("ZZZZ", b"")] if not any(t == "ZZZZ" for t, _ in fields) else fields, wire))
+        pad = max(0, 1024 - base); pad -= pad % 4
+        fields = sorted(fields + [("ZZZZ", bytes(pad))], key=lambda f: num(f[0]))
+        return rt.frame(rt.encode(fields, wire))
+    other = bytes.fromhex("0b000080") + bytes.fromhex("01000000")
+    for u in unknown:
+        out.append((build([(u, rt.DRAFT13), ("VER", other), ("NONC", nonce)]), False))                 # draft-13 only under the unknown tag
+        out.append((build([(u, rt.DRAFT13), ("VER", rt.DRAFT13), ("NONC", nonce)]), False))           # otherwise acceptable
+        out.append((build([(u, good_srv), ("VER", rt.DRAFT13), ("SRV", bytes(32)), ("NONC", nonce)]), False))
+        out.append((build([(u, nonce), ("VER", rt.DRAFT13), ("NONC", rnd(r, 32))]), False))
+        out.append((build([(u, b""), ("VER", rt.DRAFT13), ("SRV", good_srv), ("NONC", nonce)]), False))
     return out
 
 
